@@ -7,6 +7,7 @@
 -/
 import Theorems.Lemmas.Frame
 import Theorems.TransferFits
+import Theorems.FrameBody
 
 namespace Amqp.Frame
 open Amqp.Gen.FrameK
